@@ -4,7 +4,8 @@
    Proofs/LayersExtract.v (the extractor read path-wise), Proofs/LayersFlatten.v. *)
 From Apko Require Import Base.Prelude Model.Tar Spec.TarSpec Model.Layers Spec.LayersSpec Proofs.LayersProofs
   Proofs.LayersChain Proofs.LayersExtract Proofs.LayersFlatten Proofs.LayersLinks Proofs.LayersGroups Proofs.LayersValid
-  Proofs.TarProofs Proofs.TarLinks Proofs.LayersWalkLinks Proofs.LayersSizes.
+  Proofs.TarProofs Proofs.TarLinks Proofs.LayersWalkLinks Proofs.LayersSizes
+  Model.BuildSteps Generated.C10Steps Proofs.BuildStepsProofs.
 From Coq Require Import Sorting.Permutation Sorting.Sorted.
 Open Scope string_scope. Open Scope list_scope.
 
@@ -449,6 +450,118 @@ Proof.
   - intros e He Hd. vm_compute in He. repeat (destruct He as [<- | He]; [try reflexivity; discriminate Hd|]). destruct He.
   - eexists. split; [vm_compute; reflexivity | reflexivity].
 Qed.
+
+(* ---- the order of the build steps ---------------------------------------------------------
+   Context.BuildLayers / BuildLayer / BuildImage / ImageLayoutToLayer / buildLayers /
+   buildImage / postBuildSetApk are read by goextract on every run into
+   Generated.C10Steps.c10_steps: per function the calls that involve the build context, in
+   evaluation order, each under the conditions it sits under.  Model/BuildSteps.v runs them
+   ([build_trace]: the sequence of primitive calls a configuration executes); a configuration
+   is a valuation [cond] of the condition texts; the single-layer build is [cond] with the
+   branch condition of BuildLayers set ([single_when]), the layered build has it unset and the
+   three refusals of buildLayers (strategy, base image, negative budget) unset ([multi_when]).
+
+   c10_build_order (FULL, every configuration): the two builds fail together before
+   serialising anything, or both serialise — writeTar resp. splitLayers — after the SAME
+   list of steps that may change the filesystem, and no such step follows.  Decided by
+   enumerating the valuations of the condition texts that occur in the source
+   ([build_check_all]: the trace looks at [cond] nowhere else).  Moving a step of one build
+   across its serialiser, or dropping it from one build only, makes this theorem false. *)
+Theorem c10_build_order : forall cond,
+  OrderOk (build_trace c10_steps (override (single_when c10_steps) cond))
+          (build_trace c10_steps (override (multi_when c10_steps) cond)).
+Proof. intros cond. apply build_order_spec. apply build_check_all. vm_compute. reflexivity. Qed.
+Print Assumptions c10_build_order.
+
+(* fix 095ec71 stays: in both builds the last step that may change the filesystem
+   before it is serialised is SetRepositories (reached through postBuildSetApk) ... *)
+Theorem c10_repositories_rewritten_last : forall cond,
+  repos_last (build_trace c10_steps (override (single_when c10_steps) cond)) = true /\
+  repos_last (build_trace c10_steps (override (multi_when c10_steps) cond)) = true.
+Proof.
+  intros cond. apply repos_last_spec. apply build_check_all. vm_compute. reflexivity.
+Qed.
+Print Assumptions c10_repositories_rewritten_last.
+
+(* ... with a list made of run-time configuration fields only; both serialisers are
+   handed bc.fs; splitLayers gets the groups groupByOriginAndSize computes from the
+   packages buildImage returned and bc.ic.Layering.Budget *)
+Theorem c10_build_arguments : args_ok c10_call_args c10_setrepos_sources = true.
+Proof. vm_compute. reflexivity. Qed.
+Print Assumptions c10_build_arguments.
+
+(* c10_build_serialises_same_state: whatever the steps DO — any two semantics
+   [semS], [semM] of the primitive calls on any state type, related step by step
+   by a relation R ("the same filesystem apart from what records the layering
+   request": every step preserves it, and WriteEtcApkoConfig, the one step that
+   sees the layering block, differs only in what R ignores), with the calls
+   classified as reads acting as the identity — the state handed to splitLayers
+   by the layered build and the state handed to writeTar by the single-layer
+   build are related by R (or both builds end with the same class of error). *)
+Theorem c10_build_serialises_same_state :
+  forall (S : Type) (R : S -> S -> Prop) (semS semM : string -> S -> res S),
+  (forall n s s', R s s' -> res_rel S R (semS n s) (semM n s')) ->
+  (forall n s, in_list n pure_calls = true -> semS n s = Ok s) ->
+  (forall n s, in_list n pure_calls = true -> semM n s = Ok s) ->
+  forall cond s0 s0', R s0 s0' ->
+  match split_at_serialiser (fst (build_trace c10_steps (override (single_when c10_steps) cond))),
+        split_at_serialiser (fst (build_trace c10_steps (override (multi_when c10_steps) cond))) with
+  | Some (a, _, _), Some (a', _, _) => res_rel S R (exec S semS a s0) (exec S semM a' s0')
+  | None, None => True
+  | _, _ => False
+  end.
+Proof.
+  intros S R semS semM Hrel HpS HpM cond s0 s0' H0.
+  exact (serialised_states_related S R semS semM Hrel HpS HpM _ _ s0 s0' (c10_build_order cond) H0).
+Qed.
+Print Assumptions c10_build_serialises_same_state.
+
+(* ... and with the flatten theorem: states are trees, the layered build splits the
+   walk of its final tree, the single-layer build writes the walk of its own: the
+   layers flatten to a tree R-related to the one the single layer extracts to. *)
+Theorem c10_build_flatten :
+  forall (R : forest -> forest -> Prop) (semS semM : string -> forest -> res forest),
+  (forall n s s', R s s' -> res_rel forest R (semS n s) (semM n s')) ->
+  (forall n s, in_list n pure_calls = true -> semS n s = Ok s) ->
+  (forall n s, in_list n pure_calls = true -> semM n s = Ok s) ->
+  forall cond s0 s0' a b a' b' fM ev gs own layers, R s0 s0' ->
+  fst (build_trace c10_steps (override (single_when c10_steps) cond)) = a ++ "writeTar" :: b ->
+  fst (build_trace c10_steps (override (multi_when c10_steps) cond)) = a' ++ "splitLayers" :: b' ->
+  (forall n, In n a -> in_list n serialisers = false) -> (forall n, In n a' -> in_list n serialisers = false) ->
+  exec forest semM a' s0' = Ok fM ->
+  wfl_forest (has_hdr ev) fM = true ->
+  (forall e, In e (walk ev fM) -> is_dir e = true -> own (e_path e) = None) ->
+  LinksShareOwner own fM ->
+  split_layers gs own (walk ev fM) = Ok layers ->
+  exists fS flat, exec forest semS a s0 = Ok fS /\ R fS fM /\
+    apply_layers layers = Ok flat /\ canon_forest flat = canon_forest fM /\
+    (forall ev', wfl_forest (has_hdr ev') fS = true -> extract (walk ev' fS) = Ok (canon_forest fS)).
+Proof.
+  intros R semS semM Hrel HpS HpM cond s0 s0' a b a' b' fM ev gs own layers H0 E1 E2 N1 N2 EM Hw Hd Ho Hs.
+  pose proof (c10_build_serialises_same_state forest R semS semM Hrel HpS HpM cond s0 s0' H0) as G.
+  rewrite E1, E2 in G.
+  rewrite (split_at_serialiser_app a "writeTar" b N1 eq_refl), (split_at_serialiser_app a' "splitLayers" b' N2 eq_refl) in G.
+  rewrite EM in G. unfold res_rel in G. destruct (exec forest semS a s0) as [fS| | |] eqn:ES; try contradiction.
+  destruct (c10_flatten_walk_links ev fM gs own layers Hw Hd Ho Hs) as [flat [Ea Ec]].
+  exists fS, flat. repeat split; auto. intros ev' Hw'. exact (extract_walk_links ev' fS Hw').
+Qed.
+Print Assumptions c10_build_flatten.
+
+(* the hypotheses are satisfiable, and what the traces look like: the configuration in
+   which every condition of the source is false except those the two builds set *)
+Example c10_build_order_example :
+  let tS := build_trace c10_steps (override (single_when c10_steps) (fun _ => false)) in
+  let tM := build_trace c10_steps (override (multi_when c10_steps) (fun _ => false)) in
+  snd tS = Cont /\ snd tM = Cont /\
+  in_list "writeTar" (fst tS) = true /\ in_list "splitLayers" (fst tS) = false /\
+  in_list "splitLayers" (fst tM) = true /\ in_list "writeTar" (fst tM) = false /\
+  in_list "bc.WriteEtcApkoConfig" (fst tS) = true /\ in_list "bc.apk.SetRepositories" (fst tM) = true /\
+  (* a layering block that buildLayers refuses (every leading refusal condition set): nothing is built *)
+  build_trace c10_steps (override (match multi_when c10_steps with
+                                   | g :: r => g :: map (fun g : guard => (fst g, negb (snd g))) r
+                                   | [] => []
+                                   end) (fun _ => false)) = ([], Failed).
+Proof. vm_compute. repeat split; reflexivity. Qed.
 
 (* ---- the validators run on the implementation's output decide the specification ---- *)
 Theorem c10_groups_validator_decides : forall rep_name rep_sat pkgs budget gs,
